@@ -52,6 +52,19 @@ Theorem C20_predecode_disagrees_on_signed_root_with_xmlns_named_attributes_refut
 Proof. exact predecode_disagrees_on_signed_root_with_xmlns_named_attributes. Qed.
 Print Assumptions C20_predecode_disagrees_on_signed_root_with_xmlns_named_attributes_refuted.
 
+(* the pre-decoder reads the received bytes directly (Schema.view_direct: no etree serialisation, no second end-of-line
+   normalisation); on a root without U+000D in its values that is the reading above, hence: *)
+Theorem C20_predecode_direct_agrees_when_root_unsigned : forall dsig decrypt cfg now raw r b,
+  well_formed_attrs raw = true ->
+  cr_free raw = true ->
+  (cfg_skip_sig cfg = true \/ dsig (dedupe raw) = DMissing) ->
+  validate_response_tree dsig decrypt cfg now (dedupe raw) = Ok r ->
+  unmarshal_base_response_direct raw = Ok b ->
+  br_id b = r_id r /\ br_in_response_to b = r_in_response_to r /\ br_destination b = r_destination r /\
+  br_version b = r_version r /\ br_issuer b = r_issuer r.
+Proof. exact predecode_direct_agrees_when_root_unsigned. Qed.
+Print Assumptions C20_predecode_direct_agrees_when_root_unsigned.
+
 (* ---- the pre-decoder and the full decoder read the same, normative, binding table ---- *)
 From V Require Import SchemaDefs Generated SamlSchema P_SamlSchema.
 Theorem C20_decode_schema_is_saml_core : xml_schema = saml_core_schema.
@@ -100,10 +113,11 @@ Theorem C20_token_view_is_first_element : forall s kids root,
 Proof. exact predecode_reads_the_same_tokens. Qed.
 Print Assumptions C20_token_view_is_first_element.
 
-(* composition with C20_predecode_agrees_when_root_unsigned: agreement of the two decoders FROM THE BYTES *)
+(* composition with C20_predecode_agrees_when_root_unsigned: agreement of the two decoders FROM THE BYTES, for every document
+   whose root has no duplicated attribute names and no U+000D in a value (one can only get there through &#13; / &#xD;) *)
 Theorem C20_predecode_agrees_from_bytes : forall dsig decrypt cfg now s tree r b,
   read_tree s = Ok tree ->
-  (forall raw, read_root_raw s = Ok (Some raw) -> well_formed_attrs raw = true) ->
+  (forall raw, read_root_raw s = Ok (Some raw) -> well_formed_attrs raw = true /\ cr_free raw = true) ->
   (cfg_skip_sig cfg = true \/ dsig tree = DMissing) ->
   validate_response_tree dsig decrypt cfg now tree = Ok r ->
   predecode_bytes s = Ok b ->
@@ -125,7 +139,7 @@ Print Assumptions C20_source_predecoders_read_with_pass_through.
 Theorem C20_predecode_succeeds_on_raw_document_etree_reads : forall (inflate : string -> Z -> string * bool) enc s tree,
   GenPreludeD.b64_decode enc = Ok s -> read_tree s = Ok tree ->
   exists raw, read_root_raw s = Ok (Some raw) /\ dedupe raw = tree /\
-    (forall b, unmarshal_base_response raw = Ok b -> predecode_encoded inflate enc = Ok (Some b)).
+    (forall b, unmarshal_base_response_direct raw = Ok b -> predecode_encoded inflate enc = Ok (Some b)).
 Proof. exact predecode_encoded_raw. Qed.
 Print Assumptions C20_predecode_succeeds_on_raw_document_etree_reads.
 
@@ -173,6 +187,22 @@ Theorem C20_predecode_foreign_encoding_before_repair_refuted :
      maybe_deflate inflate base_response predecode_bytes_original latin1_doc c_default = Err e_inflate).
 Proof. exact predecode_foreign_encoding_before_repair_refuted. Qed.
 Print Assumptions C20_predecode_foreign_encoding_before_repair_refuted.
+
+(* outside the premise [cr_free]: the known finding F13, witnessed from the bytes.  InResponseTo="_q&#13;x" on the root: the
+   pre-decoder reports "_q<CR>x"; validation decodes etree's re-serialisation of the element, which writes U+000D raw (F8),
+   so the second tokenizer pass reads "_q<LF>x" (last conjunct: the mechanism, Build.etree_write then read_tree) *)
+Theorem C20_predecode_disagrees_on_cr_character_reference_refuted :
+  read_tree f13_doc = Ok (Elem "samlp" "Response" (f13_attrs f13_cr_value) []) /\
+  well_formed_attrs (Elem "samlp" "Response" (f13_attrs f13_cr_value) []) = true /\
+  cr_free (Elem "samlp" "Response" (f13_attrs f13_cr_value) []) = false /\
+  option_map br_in_response_to (match predecode_bytes f13_doc with Ok b => Some b | Err _ => None end) = Some f13_cr_value /\
+  option_map r_in_response_to
+    (match unmarshal_response (Elem "samlp" "Response" (f13_attrs f13_cr_value) []) with Ok r => Some r | Err _ => None end)
+    = Some f13_lf_value /\
+  read_tree (Build.etree_write (Elem "samlp" "Response" (f13_attrs f13_cr_value) []))
+    = Ok (Elem "samlp" "Response" (f13_attrs f13_lf_value) []).
+Proof. exact predecode_disagrees_on_cr_reference. Qed.
+Print Assumptions C20_predecode_disagrees_on_cr_character_reference_refuted.
 
 (* the pre-decoder never looks behind the first element's end tag *)
 Theorem C20_predecode_ignores_what_follows_the_root :
